@@ -10,7 +10,7 @@ Open Scope N_scope.
 Theorem C17_merge_ref_roundtrip :
   forall (st : ref_style) (lower : bool) (d : dims),
     dims_ok ROW_LIMIT COL_LIMIT d -> ref_style_legal st d = true ->
-    get_dimension_h (render_ref st lower d) = Ok d.
+    get_dimension (render_ref st lower d) = Ok d.
 Proof. exact merge_ref_roundtrip. Qed.
 
 (* xlsx: for every workbook (any number of sheets, 0..n regions each, every legal way of writing
@@ -129,11 +129,11 @@ Theorem C17_fast_versions_equal :
 Proof. exact (conj parse_merge_cells_fast_eq xls_sheets_fast_eq). Qed.
 
 (* ---------- totality: no input makes the modelled functions panic (for C06) ----------
-   No well-formedness hypothesis: any byte string, any event list, any zip.  [get_dimension_h] is
-   the A1 scanner after 348f419 / 717a5d9 (u64 saturating arithmetic, u32::try_from), see Merge.v. *)
+   No well-formedness hypothesis: any byte string, any event list, any zip.  [get_dimension] is
+   the A1 scanner after 348f419 / 717a5d9 (u64 saturating arithmetic, u32::try_from): Col26.v. *)
 Theorem C17_no_panic_get_dimension :
-  forall s : list N, get_dimension_h s <> Panic /\ get_dimension_h s <> OutOfFuel.
-Proof. exact (fun s => @safe_not_panic _ _ (get_dimension_h_safe s)). Qed.
+  forall s : list N, get_dimension s <> Panic /\ get_dimension s <> OutOfFuel.
+Proof. exact (fun s => @safe_not_panic _ _ (get_dimension_safe s)). Qed.
 
 (* xlsx: read_merged_regions' loop over a part, read_merge_cells, the loop of
    worksheet_merge_cells, and both entry points over any zip and sheet list *)
@@ -182,7 +182,7 @@ Qed.
 Example C17_no_panic_nonvacuous :
   Forall (fun sp => rfind_slash (snd sp) <> None) (sheets_of ex_wb) /\
   parse_merge_cells [1; 0; 0; 0; 1; 0; 0; 0; 1] = Err E_LEN /\
-  get_dimension_h [66; 50; 58; 65; 49] = Ok ((1, 1), (0, 0)).
+  get_dimension [66; 50; 58; 65; 49] = Ok ((1, 1), (0, 0)).
 Proof. exact ex_no_panic_nonvacuous. Qed.
 
 (* ---------- non-vacuity ----------
@@ -246,7 +246,7 @@ Proof. exact (conj (conj (N.le_refl _) (conj (N.le_refl _) (conj eq_refl eq_refl
 Check C17_merge_ref_roundtrip :
   forall (st : ref_style) (lower : bool) (d : dims),
     dims_ok ROW_LIMIT COL_LIMIT d -> ref_style_legal st d = true ->
-    get_dimension_h (render_ref st lower d) = Ok d.
+    get_dimension (render_ref st lower d) = Ok d.
 Check C17_table_meta_exact :
   forall (z : zip) (wb : list sheet_e),
     legal wb = true -> Forall sheet_dom wb -> zip_has_tables z wb ->
